@@ -216,7 +216,7 @@ def py_checks(case, out):
 
 
 # ---------------------------------------------------------------- LSQR vs SciPy (oracle)
-def lsqr_checks(A, y, x0, damp, niter, tols=0.0):
+def lsqr_checks(A, y, x0, damp, niter, tols=0.0, calc_var=True):
     """pylops.lsqr vs scipy.sparse.linalg.lsqr(iter_lim=k) for every k; returns
     (bad list, n_comparisons, info)."""
     import pylops
@@ -224,7 +224,7 @@ def lsqr_checks(A, y, x0, damp, niter, tols=0.0):
     Op = pylops.MatrixMult(A.copy(), dtype=A.dtype)
     its = []
     tk = dict(atol=tols, btol=tols, conlim=(0 if tols == 0 else 1e8))
-    out = pylops.lsqr(Op, y.copy(), x0=None if x0 is None else x0.copy(), damp=damp, niter=niter,
+    out = pylops.lsqr(Op, y.copy(), x0=None if x0 is None else x0.copy(), damp=damp, niter=niter, calc_var=calc_var,
                       callback=lambda z: its.append(np.array(z, copy=True)), **tk)
     x, istop, itn, r1, r2, anorm, acond, arnorm, xnorm, var, cost = out
     cost = np.atleast_1d(cost)
@@ -430,7 +430,7 @@ def build_cases(tier):
                     for damp in DAMPS:
                         for ni in niters:
                             lsq.append({"kind": kind, "cplx": cplx, "seed": sd, "A": sysd["A"], "y": sysd["y"], "x0k": x0k,
-                                        "x0": x0_of(sysd, x0k), "damp": damp, "niter": ni})
+                                        "x0": x0_of(sysd, x0k), "damp": damp, "niter": ni, "calc_var": len(lsq) % 2 == 0})
     for cplx in (False, True):
         for nm, A, y in breakdown_systems(cplx):
             for x0k in ("none", "zeros"):
@@ -439,7 +439,7 @@ def build_cases(tier):
                         for tols in (0.0, 1e-8):
                             lsq.append({"kind": "breakdown:" + nm, "cplx": cplx, "seed": 0, "A": A, "y": y, "x0k": x0k,
                                         "x0": None if x0k == "none" else np.zeros(A.shape[1], dtype=A.dtype), "damp": damp,
-                                        "niter": ni, "tols": tols})
+                                        "niter": ni, "tols": tols, "calc_var": len(lsq) % 2 == 0})
     return cases, lsq
 
 
@@ -549,7 +549,7 @@ def run(tier, pid="C09"):
     lres = []
     for L in lsq:
         try:
-            bad, ncmp, info = lsqr_checks(L["A"], L["y"], L["x0"], L["damp"], L["niter"], L.get("tols", 0.0))
+            bad, ncmp, info = lsqr_checks(L["A"], L["y"], L["x0"], L["damp"], L["niter"], L.get("tols", 0.0), L.get("calc_var", True))
         except Exception as e:
             bad, ncmp, info = [("error", "%s: %s" % (type(e).__name__, e))], 0, {}
         lres.append((bad, ncmp, info))
@@ -601,7 +601,7 @@ def replay_dict(c, kind, detail):
     return {"solver": c.get("solver", "lsqr"), "kind": kind, "detail": detail, "shape": list(A.shape), "cplx": bool(c["cplx"]),
             "A": _ser(A), "y": _ser(c["y"]), "x0": _ser(c["x0"]), "damp": c["damp"], "niter": c["niter"],
             "tol": c.get("tol", 0.0), "trace": bool(c.get("trace", False)), "drive": c.get("drive", "solve"),
-            "tols": c.get("tols", 0.0),
+            "tols": c.get("tols", 0.0), "calc_var": c.get("calc_var", True),
             "call": "pylops.%s(MatrixMult(A), y, x0=x0, niter=niter%s)" % (
                 c.get("solver", "lsqr"), "" if c.get("solver") == "cg" else ", damp=damp")}
 
@@ -614,7 +614,7 @@ def replay(rp, kinds):
         y = y.astype(complex)
         x0 = None if x0 is None else x0.astype(complex)
     if rp["solver"] == "lsqr":
-        bad, _, _ = lsqr_checks(A, y, x0, rp["damp"], rp["niter"], rp.get("tols", 0.0))
+        bad, _, _ = lsqr_checks(A, y, x0, rp["damp"], rp["niter"], rp.get("tols", 0.0), rp.get("calc_var", True))
     else:
         c = {"solver": rp["solver"], "Aop": A, "H": A, "y": y, "x0": x0, "damp": rp["damp"], "niter": rp["niter"], "tol": rp["tol"]}
         out = run_impl(rp["solver"], A, y, x0, rp["damp"], rp["niter"], rp["tol"], rp.get("trace", False), rp.get("drive", "solve"))
@@ -776,7 +776,7 @@ def report(pid, tier, extra=None):
                         "itself was found [%s]" % ("; ".join(c09_lsqr.CODE_TXT[k] for k in sorted(cs)), describe(c)),
                         dict(replay_dict(c, "lsqr-model", sorted(cs)), broken="Corr.CheckLSQR codes %s" % sorted(cs)), no_input=True)
     ex = extra(R, tier) if extra else None
-    if ex:
+    if ex and "reselect" in ex:
         evals += ex["n"]
         R.cov.update(omp_runs=ex["n"], omp_runs_ok=ex["ok"], omp_runs_with_reselected_column=ex["reselect"], omp_sigma_stops=ex["sigma_stops"],
                      omp_coq_files=ex["files"], t_omp=ex["t"],
@@ -784,9 +784,13 @@ def report(pid, tier, extra=None):
                               "y = sparse combination (+ dyadic noise); niter_inner in {0 (only unit columns, normalizecols=False), 40}; "
                               "niter_outer in {0,1,2,8}; sigma in {1e-10, 0.35||y||}; functional omp(), class OMP.solve() with Callbacks, manual setup/step, same numpy seed")
         R.samples.append(ex["sample"])
+    more = (ex or {}).get("more", [])
+    for mo in more:
+        evals += mo["n"]
+        R.cov.update(mo.get("cov", {}))
     R.cov.update(
-        obligations=len(thms) + corr_all + nl + lm_n + (ex["n"] if ex else 0),
-        discharged=len(thms) + corr_ok + sum(1 for b, _, _ in res["lres"] if not [x for x in b if x[0] in kinds]) + lm_ok + (ex["ok"] if ex else 0),
+        obligations=len(thms) + corr_all + nl + lm_n + (ex.get("n", 0) if ex else 0) + sum(mo["n"] for mo in more),
+        discharged=len(thms) + corr_ok + sum(1 for b, _, _ in res["lres"] if not [x for x in b if x[0] in kinds]) + lm_ok + (ex.get("ok", 0) if ex else 0) + sum(mo["ok"] for mo in more),
         lsqr_model_cases=lm_n, lsqr_model_steps=lm_steps, lsqr_model_coq_files=res["lm_files"], t_lsqr_model=round(res["t_lm"], 1),
         lsqr_model_rule="pylops LSQR driven by setup + step on real integer systems (square, tall, wide, exact-breakdown), x0 in {None, random}, "
                         "damp in {0, 0.5, 3}, k <= min(m, n) and within the data-determined iterations; the norms computed by the implementation are "
@@ -794,7 +798,7 @@ def report(pid, tier, extra=None):
         checker_cmd="make -C coq; coqc Solvers/CG.v Solvers/CGLS.v Corr/CheckC09.v; coqc Props/%s.v (Print Assumptions); "
                     "coqc .work/<pid>/cases_*.v (vm_compute: pylops cg/cgls runs vs the Gallina model over Qc / Gaussian Qc); "
                     "pylops.lsqr vs scipy.sparse.linalg.lsqr(iter_lim=k) per iteration" % pid,
-        theorems=thms, axioms_reported=axioms, evaluations=evals, distinct_nontrivial=len(nontriv) + (ex["nontriv"] if ex else 0),
+        theorems=thms, axioms_reported=axioms, evaluations=evals, distinct_nontrivial=len(nontriv) + (ex.get("nontriv", 0) if ex else 0) + sum(mo["nontriv"] for mo in more),
         rule="systems A = D + E (D diagonal in [6,12], E in [-2,2]; integers / Gaussian integers), square HPD (B^H B or symmetrised), "
              "square general, tall 6x4, wide 4x6; integer y; x0 in {None, zeros, random}; damp in {0, 0.5, 3}; niter in {0,1,2,n,n+3} "
              "and one run stopped by a tolerance placed between exact kold values; non-trivial = distinct (system, x0, damp, niter, tol) "
